@@ -378,30 +378,16 @@ def seqindex(ctx, R):
     P = ctx.P
     seen = set()
     n = 0
-    for backend in (emit.SVG, emit.TEX):
-        meths = ["add_main", "add_timeline", "add_axis", "add_links", "add_labels", "add_dots"]
-        if backend == emit.TEX:
-            meths = ["add_header", "add_header_colors", "add_header_text"] + meths
-        for d in emit.DIRECTIONS:
-            for chain in (None, 1):
-                for border in (False, True):
-                    p = emit.pipe(ctx, backend, d, n=2, chain=chain, show_border=border)
-                    for m in meths:
-                        if P.method(p.cls, m) is None:
-                            continue
-                        try:
-                            (p.run_svg if backend == emit.SVG else p.run_tex)(m)
-                        except (Undecided, AnchorMissing):
-                            raise
-                        n += 1
-                    for kind, node, text, base in p.ev.faults:
-                        f = P.enclosing_func(node)
-                        k = (kind, f.qual if f else "?", ntext(node))
-                        if k in seen:
-                            continue
-                        seen.add(k)
-                        R.bad("GEN.SEQINDEX", "%s|%s" % (k[1], k[2][:50]), where(f, node) if f else "", "`%s`: %s (%s on every export that reaches it; found with direction %s%s)" % (ntext(node)[:60], text[:90], "IndexError" if kind == "indexerror" else "KeyError", d, ", stub chain" if chain else ""))
-    R.ok("GEN.SEQINDEX", "emitter methods value-numbered: %d" % n, "", "", nontrivial=False)
+    for backend, d, chain, border, p in emit.run_all(ctx):
+        n += 1
+        for kind, node, text, base in p.ev.faults:
+            f = P.enclosing_func(node)
+            k = (kind, f.qual if f else "?", ntext(node))
+            if k in seen:
+                continue
+            seen.add(k)
+            R.bad("GEN.SEQINDEX", "%s|%s" % (k[1], k[2][:50]), where(f, node) if f else "", "`%s`: %s (%s on every export that reaches it; found with direction %s%s)" % (ntext(node)[:60], text[:90], "IndexError" if kind == "indexerror" else "KeyError", d, ", stub chain" if chain else ""))
+    R.ok("GEN.SEQINDEX", "emitter configurations value-numbered: %d" % n, "", "", nontrivial=False)
 
 
 def hex_total(ctx, R):
@@ -704,6 +690,166 @@ def datumkeys(ctx, R):
     R.check(n >= 2, "C11.DATUMKEYS.inventory", "datum key reads examined: %d" % n, "", "", "fewer datum key reads than expected", nontrivial=False)
 
 
+def local_none(ctx, R, reach):
+    """A local that is explicitly initialised to None is not dereferenced where it may still be None.  Known-not-None facts
+    come from assignments of other values, tests on the local itself, and the *witness* idiom
+    `w = E0; v = None; loop: ... v = x; w = i ...; if w != E0: v.attr` (w is only reassigned next to a non-None assignment
+    of v, so `w != E0` implies v was assigned)."""
+    from .c11 import _none_test, _deref_uses
+
+    P = ctx.P
+    n_sites = 0
+    for q in sorted(reach):
+        f = P.funcs.get(q)
+        if f is None or f.is_lambda:
+            continue
+        none_asg = {}
+        for nd in walk_local(f.node):
+            if isinstance(nd, ast.Assign) and isinstance(nd.value, ast.Constant) and nd.value.value is None:
+                for t in nd.targets:
+                    if isinstance(t, ast.Name):
+                        none_asg.setdefault(t.id, []).append(nd)
+        names = {v for v in none_asg if v not in f.params}
+        if not names:
+            continue
+        cfg = ctx.cfg(f)
+        # witnesses: w -> (v, E0 text)
+        witness = {}
+        for v in names:
+            if len(none_asg[v]) != 1:
+                continue
+            vnode = cfg.of_stmt.get(none_asg[v][0])
+            for blk in ast.walk(f.node):
+                for fld in ("body", "orelse"):
+                    stmts = getattr(blk, fld, None)
+                    if not isinstance(stmts, list):
+                        continue
+                    sets_v = [s_ for s_ in stmts if isinstance(s_, ast.Assign) and any(isinstance(t, ast.Name) and t.id == v for t in s_.targets) and not (isinstance(s_.value, ast.Constant) and s_.value.value is None)]
+                    if not sets_v:
+                        continue
+                    for s_ in stmts:
+                        if isinstance(s_, ast.Assign) and len(s_.targets) == 1 and isinstance(s_.targets[0], ast.Name) and s_.targets[0].id != v:
+                            w = s_.targets[0].id
+                            allw = [x for x in walk_local(f.node) if isinstance(x, ast.Assign) and any(isinstance(t, ast.Name) and t.id == w for t in x.targets)]
+                            inits = [x for x in allw if x not in stmts]
+                            if len(inits) == 1 and len(allw) == 2 and vnode is not None:
+                                inode = cfg.of_stmt.get(inits[0])
+                                snode = cfg.of_stmt.get(s_)
+                                if inode is not None and snode is not None and cfg.dominates(inode, snode) and cfg.dominates(vnode, snode):
+                                    witness[w] = (v, ntext(inits[0].value))
+        IN = {n: set(names) for n in cfg.nodes}
+        IN[cfg.entry] = set(names)  # an unassigned local cannot be None (it would be unbound: GEN.DEFINED)
+
+        def facts(t, lab):
+            out = set()
+            for nm, l in _none_test(t):
+                if nm in names and l == lab:
+                    out.add(nm)
+            if isinstance(t, ast.Compare) and len(t.ops) == 1 and isinstance(t.left, ast.Name) and t.left.id in witness:
+                v, e0 = witness[t.left.id]
+                if ntext(t.comparators[0]) == e0:
+                    if (isinstance(t.ops[0], (ast.NotEq, ast.IsNot)) and lab is True) or (isinstance(t.ops[0], (ast.Eq, ast.Is)) and lab is False):
+                        out.add(v)
+            if isinstance(t, ast.BoolOp) and isinstance(t.op, ast.And) and lab is True:
+                for x in t.values:
+                    out |= facts(x, True)
+            if isinstance(t, ast.BoolOp) and isinstance(t.op, ast.Or) and lab is False:
+                for x in t.values:
+                    out |= facts(x, False)
+            if isinstance(t, ast.UnaryOp) and isinstance(t.op, ast.Not):
+                out |= facts(t.operand, not lab)
+            return out
+
+        def edge_out(n, m):
+            s_ = set(IN[n])
+            a = n.ast
+            if n.kind == "stmt" and isinstance(a, (ast.Assign, ast.AugAssign, ast.AnnAssign)):
+                tg = a.targets if isinstance(a, ast.Assign) else [a.target]
+                for t in tg:
+                    for x in ast.walk(t):
+                        if isinstance(x, ast.Name) and isinstance(x.ctx, ast.Store) and x.id in names:
+                            val = a.value
+                            if isinstance(val, ast.Constant) and val.value is None:
+                                s_.discard(x.id)
+                            elif isinstance(val, ast.Name) and val.id in names and val.id not in s_:
+                                s_.discard(x.id)
+                            else:
+                                s_.add(x.id)
+            if n.kind in ("for", "forassign") and a is not None:
+                tgt = getattr(a, "target", None)
+                if tgt is not None:
+                    for x in ast.walk(tgt):
+                        if isinstance(x, ast.Name) and x.id in names:
+                            s_.add(x.id)
+            if n.kind == "test" and a is not None:
+                s_ |= facts(a, cfg.elabel.get((n, m)))
+            return s_
+
+        changed = True
+        while changed:
+            changed = False
+            for n in cfg.nodes:
+                if n is cfg.entry:
+                    continue
+                ps = cfg.pred[n]
+                new = set.intersection(*[edge_out(p_, n) for p_ in ps]) if ps else set(names)
+                if new != IN[n]:
+                    IN[n] = new
+                    changed = True
+        for n in cfg.nodes:
+            a = n.ast
+            if a is None:
+                continue
+            for v in sorted(names):
+                if v in IN[n]:
+                    continue
+                roots = [a]
+                if n.kind == "stmt" and isinstance(a, ast.Assign):
+                    roots = [a.value] + [t for t in a.targets if not isinstance(t, ast.Name)]
+                elif n.kind in ("for", "forassign"):
+                    roots = [getattr(a, "iter", a)] if hasattr(a, "iter") else [a]
+                for r in roots:
+                    # within one test expression, short-circuit facts of earlier conjuncts
+                    for node, desc in _deref_uses_with(r, v, facts):
+                        n_sites += 1
+                        R.bad("GEN.LOCALNONE", "%s|%s" % (q, ntext(node)[:50]), where(f, node), "%s while the local `%s` may still hold the None it was initialised with (no dominating test establishes that it was assigned): AttributeError / TypeError" % (desc, v))
+    R.ok("GEN.LOCALNONE", "functions with None-initialised locals examined; unguarded dereferences: %d" % n_sites, "", "", nontrivial=False)
+
+
+def _deref_uses_with(root, name, facts):
+    """Dereferences of `name` in expression `root`, honouring short-circuit conjuncts that establish it (directly or
+    through a witness) and conditional expressions."""
+    out = []
+
+    def visit(n, safe):
+        if isinstance(n, (ast.FunctionDef, ast.AsyncFunctionDef, ast.Lambda, ast.ClassDef)):
+            return
+        if isinstance(n, ast.IfExp):
+            visit(n.test, safe)
+            visit(n.body, safe or name in facts(n.test, True))
+            visit(n.orelse, safe or name in facts(n.test, False))
+            return
+        if isinstance(n, ast.BoolOp):
+            s_ = safe
+            for v in n.values:
+                visit(v, s_)
+                if isinstance(n.op, ast.And) and name in facts(v, True):
+                    s_ = True
+                if isinstance(n.op, ast.Or) and name in facts(v, False):
+                    s_ = True
+            return
+        if not safe:
+            if isinstance(n, (ast.Attribute, ast.Subscript)) and isinstance(n.value, ast.Name) and n.value.id == name and isinstance(n.ctx, ast.Load):
+                out.append((n, "`%s` is evaluated" % ntext(n)[:50]))
+            elif isinstance(n, ast.Call) and isinstance(n.func, ast.Name) and n.func.id == name:
+                out.append((n, "`%s` is called" % ntext(n)[:50]))
+        for c in ast.iter_child_nodes(n):
+            visit(c, safe)
+
+    visit(root, False)
+    return out
+
+
 def crash_pack(reach_fn, entries=None):
     """Rule running all source-level crash lints over reach_fn(ctx); the attribute typestate is checked for the
     entry methods named in `entries` (default: methods called `export`)."""
@@ -717,6 +863,7 @@ def crash_pack(reach_fn, entries=None):
         builtin_args(ctx, R, reach)
         dictkey(ctx, R, reach)
         attr_order(ctx, R, reach, ent)
+        local_none(ctx, R, reach)
 
     run.rule_id = "GEN.CRASH"
     run.__name__ = "crash_pack"
